@@ -10,3 +10,17 @@ package presign
 //@   requires r.SigmaShares != nil && forall(k, party.ID, indom(r.SigmaShares, k) ==> r.SigmaShares[k] != nil)
 //@   assert_at[C01] ResultRound "return r.ResultRound(s)": ecdsa_valid(s.R, s.S, r.PublicKey, r.Message)
 //@   assert_at[C01] ResultRound "return r.ResultRound(s)": typeis(arg1, *ecdsa.Signature) && arg1.(*ecdsa.Signature) == s
+
+// ---- start functions (C20)
+//@ func StartPresign$1
+//@   nopanic[C20]
+//@   requires c != nil ==> cfgwf(c)
+//@   ensures[C20] result1 != nil ==> result0 == nil
+//@   ensures[C20] result1 == nil ==> (c != nil && lastresult(CanSign) && result0 != nil)
+//@   loop 1: invariant PublicKey != nil && fresh(ECDSA) && fresh(ElGamal) && fresh(Paillier) && fresh(Pedersen)
+
+//@ func StartPresignOnline$1
+//@   nopanic[C20]
+//@   requires c != nil ==> cfgwf(c)
+//@   ensures[C20] result1 != nil ==> result0 == nil
+//@   ensures[C20] result1 == nil ==> (c != nil && preSignature != nil && len(message) > 0 && lastresult(CanSign) && result0 != nil)
